@@ -16,11 +16,21 @@ def gen(ctx):
         big = runs.generate(ctx, solver, 1 if quick else 3, nS=128, nA=2, nE=2, family="tab", mb=64, init="zero", max_tries=200,
                             **({"ks": [3]} if solver != "pi" else {"ks": [2], "max_eval": 3}))
         out += big
+    # thousands of states (several full batches per device at every batch size): layouts compared with each other on the
+    # implementation alone (exact dyadic data, so every layout must agree to the bit); not evaluated inside Coq
+    for solver in (("vi", "pi") if quick else ("vi", "pi", "rvi", "pvi", "vi", "pi")):
+        lg = runs.generate(ctx, solver, 1, nS=ctx.rng.choice([2100, 3333, 5000]) + ctx.rng.randrange(50), nA=2, nE=2, family="tab" if solver != "rvi" else "unichain",
+                           denom=2, init="zero", max_tries=20, **({"ks": [3]} if solver != "pi" else {"ks": [2], "max_eval": 3}), **({"g": F(1, 2)} if solver != "rvi" else {}))
+        for c in lg:
+            c["large"] = True
+        out += lg
     return out
 
 
 def variants(case, tier):
     n = case["spec"]["nS"]
+    if case.get("large"):
+        return [(1024, 1), (64, 1), (1000, 2), (4096, 2), (4096, 3), (100, 3)] if tier == "quick" else [(1024, 1), (64, 1), (1000, 2), (4096, 2), (4096, 3), (100, 3), (n, 1), (777, 4), (8192, 8)]
     mbs = sorted({1, 2, 3, 5, 7, 64, 65, n, n + 3} if n <= 10 else {64, 65, 33, n, n + 3})
     devs = [1, 2, 3] if tier == "quick" else [1, 2, 3, 4, 8]
     rng = random.Random(case["seed"])
@@ -74,6 +84,8 @@ def run(ctx, build):
                 elif sig != base[0]:
                     viols.append({"key": key, "what": f"{c['solver']} results differ between layout (mb={base[1]}, d={base[2]}) and (mb={mb}, d={d})",
                                   "input": {"case": v, "devices": d, "other": {"mb": base[1], "devices": base[2]}}})
+            if c.get("large"):
+                continue
             perms = obs[-1].get("perms") if c["solver"] == "savi" else None
             if c["solver"] == "savi" and c.get("shuffle") and perms is None:
                 continue  # hook off: permutation unknown, model cannot be driven
@@ -98,7 +110,7 @@ def run(ctx, build):
                          "input": {"case": v, "devices": d}})
     nontriv = {(ci, mb, d) for (ci, mb, d), (v, r) in results.items() if d > 1 or refsolve.layout(v["spec"]["nS"], mb, d)[2] > 0}
     cov = {
-        "evaluations": total,
+        "evaluations": total, "cases_with_thousands_of_states": [c["spec"]["nS"] for c in cs if c.get("large")],
         "distinct_nontrivial": len(nontriv),
         "rule": "distinct (generated MDP, solver, max_batch_size, device count) runs; XLA_FLAGS=--xla_force_host_platform_device_count=d emulated devices; "
                 "non-trivial = more than one device or a padded last batch",
